@@ -34,6 +34,7 @@ func srvGenCfg(r *rand.Rand, tier, flavour string) *SrvGenCfg {
 	case "flushget":
 		cfg.WFlush, cfg.WGet, cfg.WViol = 80, 120, 10
 		cfg.GetAfterOps = 250
+		cfg.WAddNI = 25
 		p.Rich = true
 	}
 	return cfg
@@ -58,6 +59,8 @@ func srvCase(name string, cfg *SrvGenCfg, evs []SEv) *CaseSpec {
 				o = append(o, "srv.flush # "+prototextLine(e.Flush))
 			case "get":
 				o = append(o, "srv.get # "+prototextLine(e.Get))
+			case "addni":
+				o = append(o, "srv.addni "+e.NI)
 			default:
 				o = append(o, fmt.Sprintf("srv.%s %d %s", e.Kind, e.C, e.CloseMode))
 			}
@@ -168,5 +171,5 @@ func init() {
 	props["C09"] = &PropSpec{Mode: "srv.protocol", Diffs: []string{"msg.", "sess", "elec", "master"}, Monitors: []string{"c09"}}
 	props["C12"] = &PropSpec{Mode: "srv.malformed", Diffs: []string{"msg.", "ents", "pend", "refs", "crash", "add.", "del."}, Monitors: []string{"c12"}}
 	props["C08"] = &PropSpec{Mode: "srv.flushget", Diffs: []string{"flush", "ents", "refs", "hooks"}, Monitors: []string{"c08", "c03"}}
-	props["C07"] = &PropSpec{Mode: "srv.flushget", Diffs: []string{"get", "ents"}, Monitors: []string{"c07"}}
+	props["C07"] = &PropSpec{Mode: "srv.flushget", Extra: []string{"getsnap"}, Diffs: []string{"get", "ents"}, Monitors: []string{"c07"}}
 }
